@@ -73,8 +73,9 @@ namespace internal
 			const IterSwapper& iterSwapper, const GroupFunc& groupFunc)
 		{
 			typedef decltype(codeGetter(begin)) Code;
+			static const size_t codeBitSize = 8 * sizeof(Code);
 			pvSort<Code>(begin, count, codeGetter, iterSwapper, groupFunc,
-				8 * sizeof(Code) - radixSize);
+				(codeBitSize > radixSize) ? codeBitSize - radixSize : 0);
 		}
 
 	private:
